@@ -17,7 +17,7 @@ import re
 from vlib.hostlist import (HL, Cli, WFGen, LIMIT, hx, unhx, parse_probe, parse_spec, same_answer, feat_big,
                            feat_longplain, feat_first_group_complete, feat_d16, gen_malformed, exhaustive, names_field, U64,
                            impl_tokens,
-                           VERIF_CORPUS, pinned_classes, cli_phase)
+                           VERIF_CORPUS, pinned_classes, cli_phase, poisoned_classes, state_pairs)
 
 LEVEL = "proof"
 PROPS = "PdshVerif.Props.C15"
@@ -45,9 +45,11 @@ MANIFEST = dict(
          "not proved; harness, generators, gcc trusted")
 
 
-def judge(ctx, s, sp, impl, model, origin):
+def judge(ctx, s, sp, impl, model, origin, extra=None):
     case = {"text": s[:300].decode("latin1"), "expr_hex": hx(s) if len(s) <= 20000 else hx(s[:20000]) + "..",
             "length": len(s), "origin": origin, "impl": impl[:300], "spec": sp[:200]}
+    if extra:
+        case.update(extra)
     if not same_answer(impl, model):
         ctx.disagreement("hl model vs hostlist.c (probe)", "text %r: impl `%s` model `%s`" %
                          (s[:200], impl[:300], model[:300]), case)
@@ -127,6 +129,11 @@ def run(ctx):
     rng = ctx.rng
     if ctx.replay and "expr_hex" not in json.load(open(ctx.replay)).get("case", {}):
         ctx.replay = None       # a theorem/correspondence replay names no input: the whole check is the replay
+    state_only = None
+    if ctx.replay:
+        rc0 = json.load(open(ctx.replay)).get("case", {})
+        if "poison_hex" in rc0:
+            state_only = (rc0.get("poison", "replay"), unhx(rc0["poison_hex"]), unhx(rc0["expr_hex"]))
     ctx.gen_consts(["hostlist"])
     ctx.lean_build([PROPS, "pdshmodel"])
     ctx.audit(PROPS)
@@ -137,17 +144,26 @@ def run(ctx):
                    "numbers around 2^31, 2^32, 2^63, 2^64 and of 20-40 digits, stray/nested brackets, words of "
                    "1021..1025/4094..4097/8000 bytes, blank/sign shapes inside brackets, printf conversions (%s %n %d ...) inside "
                    "brackets (the diagnostic must quote them verbatim), 10239/10240/10241 ranges in one "
-                   "bracket; on the pdsh binary also `-q` (ranged listing, 1 KiB buffer) with numbers 500..4100 characters wide "
+                   "bracket; STATE LEFT OVER (errno, the previous bracket's range table, the first element's width): "
+                   "every pinned well-formed and malformed text (trailing / leading / double comma, empty bracket, "
+                   "open range, reversed, too many) as the word after each poisoning word in one hostlist_create and "
+                   "in the call AFTER hostlist_create(poison) incl. failed calls (harness op sprobe), and as -w words "
+                   "of the pdsh binary; on the pdsh binary also `-q` (ranged listing, 1 KiB buffer) with numbers 500..4100 characters wide "
                    "(safety only); (thorough) all strings over {a,0,1,9,[,],-,,} up to length 7; non-trivial = contains a "
                    "bracket or a digit run >= 10; distinct = distinct text"}
     dist = {}
     def stream():
+        if state_only is not None:
+            return
         if ctx.replay:
             rep = json.load(open(ctx.replay))
             yield (unhx(rep["case"]["expr_hex"].rstrip(".")), "replay")
             return
         for s in load_corpus():
             yield (s, "corpus")
+        for s in poisoned_classes():
+            dist["pinned-after-poison-word"] = dist.get("pinned-after-poison-word", 0) + 1
+            yield (s, "pinned-poisoned")
         for s in pinned_classes():
             dist["pinned-classes"] = dist.get("pinned-classes", 0) + 1
             yield (s, "pinned")
@@ -188,6 +204,8 @@ def run(ctx):
                     cov["samples"].append({"text": s.decode("latin1"), "spec": sp, "impl": a[:120]})
         cov["distinct_nontrivial"] = distinct
         dist["forked"] = hl.nfork
+        if not ctx.replay or state_only is not None:
+            state_check(ctx, hl, dist, cov, only=state_only)
         dist["classes(spec -> impl)"] = dict(sorted(classes.items(), key=lambda kv: -kv[1])[:40])
         if not ctx.replay:
             cli_phase(ctx, cli_check, ctx, hl, dist, cov)
@@ -215,6 +233,23 @@ def run(ctx):
         checker_cmd="lake build PdshVerif.Props.C15 && #print axioms on every theorem of Props/C15.lean")
 
 
+def state_check(ctx, hl, dist, cov, only=None):
+    """STATE CARRIED FROM ONE LIBRARY CALL TO THE NEXT: every pinned text (well-formed and malformed) is probed in
+    the call after hostlist_create(POISON) -- errno, the stack (the range table of the previous bracket) and the
+    allocator are as that call left them, as between two -w / -x / file-line words of one pdsh run.  The verdict on
+    a text is a function of the text: same spec, same model answer as for the text alone."""
+    trip = [only] if only is not None else state_pairs()
+    texts = [t for _, _, t in trip]
+    spec = hl.spec(texts)
+    impl, model = hl.sprobe_all([(p, t) for _, p, t in trip])
+    dist["after-poison-call"] = {}
+    for (note, p, t), sp, a, b in zip(trip, spec, impl, model):
+        dist["after-poison-call"][note] = dist["after-poison-call"].get(note, 0) + 1
+        cov["evaluations"] += 1
+        judge(ctx, t, sp, a, b, "after-call", extra={"poison": note, "poison_hex": hx(p),
+                                                     "previous_call": "hostlist_create(%r)" % p[:80].decode("latin1")})
+
+
 def cli_check(ctx, hl, dist, cov, only=None, only_q=None):
     """pdsh -Q -w TEXT: exit status and diagnostic class against the model, safety against the text"""
     rng = ctx.rng
@@ -226,11 +261,16 @@ def cli_check(ctx, hl, dist, cov, only=None, only_q=None):
              b"a[18446744073709551614-18446744073709551615]", b"a[0-99999999999999999999]x", b"a[1]]", b"x" * 1023,
              # an unbalanced word NEXT TO a good one (split.c cuts the argument at commas outside brackets, every
              # comma-word goes through hostlist_push on its own): before, after, between, level going negative
-             b"b,a[1", b"a],b", b"b,a]", b"a[1,b", b"x,a[1]],y", b"a[1-2]b[,c", b"b,a[1]b[", b"a]b[1],c"]
+             b"b,a[1", b"a],b", b"b,a]", b"a[1,b", b"x,a[1]],y", b"a[1-2]b[,c", b"b,a[1]b[", b"a]b[1],c",
+             # state left over from the previous comma-word (errno, the previous bracket's range table, widths)
+             b"b[1,5-7],a[1,]", b"b[1,5-7,9],a[1-3,]x", b"job20240929102030123456789,b[1-3]",
+             b"99999999999999999999999,a[1-3],a[1,]", b"job20240929102030123456789,a[1-99999]",
+             b"w[0000000000000000000000042,1]-x,n[1,0000000000000000000000005]-ib0"]
     # which variant of opt.c is under test: does `-w` go on without a comma-word whose parse failed? (behavioural
     # probe; F15-CLI-WORD-DROPPED.  A repaired tree refuses the whole argument.)
     drops = only_q is None and cli.query("b,a[1", timeout=20)[0] == "ok"
-    dist["cli-variant"] = "failed word dropped silently" if drops else "failed word refused"
+    dist["cli-variant"] = "failed word dropped silently (opt.c before d1c94df: F15-CLI-WORD-DROPPED is back)" if drops else \
+        "failed word refused (repaired opt.c, d1c94df: the default)"
     nslow = 0
     cases = list(fixed) if only is None else [only]
     if only_q:
@@ -244,7 +284,10 @@ def cli_check(ctx, hl, dist, cov, only=None, only_q=None):
         if len(s) > 5000 or not s or b"\n" in s and False:
             continue
         cases.append(s)
-    model = hl.model(["cli %s %d" % (hx(s), LIMIT) for s in cases])
+    # the model of the opt.c that is under test: `clir` = Hostlist/CliRefuse.lean cliTargetsR (repaired opt.c, d1c94df:
+    # a word that yields nothing is refused and quoted -- `badword:<hex>`, compared verbatim with pdsh's diagnostic);
+    # `cli` = Cli.lean cliTargets (code as found: the word is dropped; C15.cliTargetsR_agrees relates the two)
+    model = hl.model(["%s %s %d" % ("cli" if drops else "clir", hx(s), LIMIT) for s in cases])
     spec = hl.spec(cases)
     ncli = 0
     for s, m, sp in zip(cases, model, spec):
@@ -277,9 +320,9 @@ def cli_check(ctx, hl, dist, cov, only=None, only_q=None):
         icls = "crash" if cls.startswith("crash") else cls
         v0 = parse_spec(sp)
         unbal = (not v0["ok"]) and "unbalanced" in v0["problems"]
-        if unbal and not drops and icls not in ("ok", "crash", "timeout"):
-            pass    # repaired opt.c: the argument is refused where the model (code as found) drops the word
-        elif icls != mcls and not (mcls == "crash" and icls in ("ok", "nohosts")):
+        if icls.startswith("badword:"):
+            dist["cli-badword-refused"] = dist.get("cli-badword-refused", 0) + 1
+        if icls != mcls and not (mcls == "crash" and icls in ("ok", "nohosts")):
             ctx.disagreement("hl model (cli) vs pdsh -Q", "text %r: pdsh %s model %s" % (s[:200], cls, m[:200]), case)
         if cls.startswith("crash") or cls == "timeout":
             big = feat_big(s)
